@@ -284,4 +284,42 @@ inductive ReachableLogP (cfg : Cfg) (s0 : State) : State → EvLog → Prop wher
       ReachableLogP cfg s0 s g → step cfg s l = some s' →
       (∀ d, l = .tick d → ∀ c, blocked s c) → ReachableLogP cfg s0 s' (logStep cfg s g l)
 
+/-! ## the history log (ghost): executions in start order, cache offers in the order they were made
+
+A second observation log, again never read by `step`:
+* `order` — the callers whose function was invoked, in the order of their `fnStart` steps (the order in
+  which the harness lists executions);
+* `sets` — one entry `(leader, value, instant)` per successful `cacheSet` step, in the order of these
+  steps: what was offered to the cache, when;
+* `readLen c` — how many offers had been made when caller `c` did its `cacheCheck`;
+* `maxIn k` — the maximum of key `k`'s in-flight counter so far. -/
+
+structure HLog where
+  order   : List Nat
+  sets    : List (Nat × Int × Int)
+  readLen : Nat → Option Nat
+  maxIn   : Nat → Nat
+
+def HLog.empty : HLog :=
+  { order := [], sets := [], readLen := fun _ => none, maxIn := fun _ => 0 }
+
+def histStep (cfg : Cfg) (s : State) (h : HLog) : Label → HLog
+  | .cacheCheck c => { h with readLen := upd h.readLen c (some h.sets.length) }
+  | .fnStart c =>
+    { h with order := h.order ++ [c],
+             maxIn := upd h.maxIn (cfg.key c) (max (h.maxIn (cfg.key c)) (s.inflight (cfg.key c) + 1)) }
+  | .cacheSet c =>
+    match s.pc c with
+    | .ran (.ok v) => { h with sets := h.sets ++ [(c, v, s.now)] }
+    | _ => h
+  | _ => h
+
+/-- runs under the virtual clock, with both logs -/
+inductive ReachableH (cfg : Cfg) (s0 : State) : State → EvLog → HLog → Prop where
+  | refl : ReachableH cfg s0 s0 EvLog.empty HLog.empty
+  | step {s s' : State} {g : EvLog} {h : HLog} (l : Label) :
+      ReachableH cfg s0 s g h → step cfg s l = some s' →
+      (∀ d, l = .tick d → ∀ c, blocked s c) →
+      ReachableH cfg s0 s' (logStep cfg s g l) (histStep cfg s h l)
+
 end GoguVerif.Model.C17
